@@ -7,6 +7,7 @@ set -u
 patch="$1"; prop="$2"; tier="${3:-quick}"; shift 3 2>/dev/null || shift $#
 out=$(mktemp -d /tmp/seedrun-XXXXXX)
 cp /verif/known_findings.json "$out/"
+if [ -n "$(git -C /repo status --porcelain)" ]; then echo "REPO-NOT-CLEAN: commit or stash changes in /repo first"; rm -rf "$out"; exit 2; fi
 git -C /repo apply "$patch" || { echo "PATCH-DOES-NOT-APPLY"; rm -rf "$out"; exit 2; }
 trap 'git -C /repo checkout -- . ; rm -rf "$out"' EXIT
 cd /verif/sim && cargo build --release --offline -q -p fibsim 2>"$out/build.log" || { echo "BUILD-FAILED"; tail -20 "$out/build.log"; exit 2; }
